@@ -167,7 +167,14 @@ func runGoTest(pkg, file, content, test string) (failed bool, output string) {
 		os.WriteFile(file, []byte(content), 0o644)
 	}
 	ov, _ := os.CreateTemp("", "govc-ov-*.json")
-	fmt.Fprintf(ov, `{"Replace": {%q: %q}}`, dst, src)
+	extra := ""
+	if eo := os.Getenv("GOVC_EXTRA_OVERLAY"); eo != "" {
+		// "<file in /repo>=<replacement>": used by the self-test to run a bounded stand-in on a mutant
+		if i := strings.Index(eo, "="); i > 0 {
+			extra = fmt.Sprintf(", %q: %q", eo[:i], eo[i+1:])
+		}
+	}
+	fmt.Fprintf(ov, `{"Replace": {%q: %q%s}}`, dst, src, extra)
 	ov.Close()
 	defer os.Remove(ov.Name())
 	ctx, cancel := context.WithTimeout(context.Background(), 180*time.Second)
